@@ -24,6 +24,7 @@ type P struct {
 	Req  bool   `json:"req"`
 	Type *T     `json:"type"`
 	Def  string `json:"def"` // declared default ("" = none; else the text of a string default)
+	Dis  string `json:"dis"` // "" in use, "plain" disabled without a reason, "reason" disabled with one
 }
 
 // The Go struct layouts of struct-mapped objects (an object names its layout in the ns field).
@@ -197,7 +198,7 @@ func inline(t *T, env *T, k int, x lex) *T {
 		c := *t
 		c.Props = make([]P, len(t.Props))
 		for i, p := range t.Props {
-			c.Props[i] = P{Name: p.Name, Req: p.Req, Def: p.Def, Type: inline(p.Type, env, k, x)}
+			c.Props[i] = P{Name: p.Name, Req: p.Req, Def: p.Def, Dis: p.Dis, Type: inline(p.Type, env, k, x)}
 		}
 		return &c
 	case "scope":
@@ -300,7 +301,14 @@ func (w *world) buildObj(t *T) *schema.ObjectSchema {
 			d := string(b)
 			def = &d
 		}
-		props[p.Name] = schema.NewPropertySchema(w.buildType(p.Type), nil, p.Req, nil, nil, nil, def, nil)
+		ps := schema.NewPropertySchema(w.buildType(p.Type), nil, p.Req, nil, nil, nil, def, nil)
+		switch p.Dis {
+		case "plain":
+			ps.Disabled = true
+		case "reason":
+			ps.Disable("superseded")
+		}
+		props[p.Name] = ps
 	}
 	var o *schema.ObjectSchema
 	switch t.NS {
@@ -458,4 +466,32 @@ func (w *world) mapRebuiltObj(t *T, o *schema.ObjectSchema) bool {
 		}
 	}
 	return true
+}
+
+// enabledTwin: the same tree with no property disabled (used to obtain the unserialized form of
+// inputs that set a disabled property, which Validate and Serialize must treat alike on the
+// scope and on the inlined scope). Returns nil when nothing is disabled.
+func enabledTwin(t *T) *T {
+	any := false
+	var cp func(t *T) *T
+	cp = func(t *T) *T {
+		c := *t
+		c.Sub = make([]*T, len(t.Sub))
+		for i, k := range t.Sub {
+			c.Sub[i] = cp(k)
+		}
+		c.Props = make([]P, len(t.Props))
+		for i, p := range t.Props {
+			if p.Dis != "" {
+				any = true
+			}
+			c.Props[i] = P{Name: p.Name, Req: p.Req, Def: p.Def, Type: cp(p.Type)}
+		}
+		return &c
+	}
+	out := cp(t)
+	if !any {
+		return nil
+	}
+	return out
 }
